@@ -25,6 +25,8 @@ def build_expr(e):
         return sympy.Symbol(e[1])
     if tag == "idx":
         return sympy.Symbol("%s[%d]" % (e[1], e[2]))
+    if tag == "symr":  # a different symbol that prints the same: declared real
+        return sympy.Symbol(e[1], real=True)
     if tag == "int":
         return sympy.Integer(e[1])
     if tag == "rat":
@@ -63,7 +65,7 @@ def expr_symbols(e, acc=None):
     """Symbol names (as the library would print them) mentioned by an expression spec."""
     acc = [] if acc is None else acc
     if isinstance(e, list):
-        if e[0] == "sym":
+        if e[0] in ("sym", "symr"):
             if e[1] not in acc:
                 acc.append(e[1])
         elif e[0] == "idx":
@@ -453,4 +455,4 @@ def spec_has_symbols(gspec):
 def assignment_for(symbols, vseed):
     """Deterministic numeric assignment for a collection of sympy symbols."""
     rs = np.random.RandomState(vseed % (2 ** 32))
-    return {s: float(rs.uniform(-2, 2)) for s in sorted(symbols, key=str)}
+    return {s: float(rs.uniform(-2, 2)) for s in sorted(symbols, key=lambda x: (str(x), bool(x.is_real)))}
